@@ -244,8 +244,6 @@ where
             bound_ok = false;
         }
     }
-    let cw = Arc::new(CountWaker(AtomicUsize::new(0)));
-    let waker = Waker::from(cw.clone());
     let mut panicked = false;
     let mut empty_batch = false;
 
@@ -255,6 +253,9 @@ where
         }
         out.push_str(" ; ");
         if *ev == "p" || *ev == "D" {
+            // a fresh waker for every poll event: an input that is not polled again in this call
+            // keeps a stale registration, which `ok:reg` then sees
+            let waker = Waker::from(Arc::new(CountWaker(AtomicUsize::new(0))));
             let mut first = true;
             let mut count = 0;
             loop {
